@@ -49,3 +49,129 @@ Proof.
     pose proof (start_plus_dur_le (durs tb) 0 (k - 1) t d Ht Hd). lia. }
   rewrite u64_small by lia. reflexivity.
 Qed.
+
+(* ---------- findEndTime ---------- *)
+Lemma nthN_In {A} (l : list A) i x : nthN l i = Some x -> In x l.
+Proof.
+  revert i; induction l as [|y t IH]; intros i Hi; [discriminate|].
+  cbn [nthN] in Hi. destruct (i =? 0); [injection Hi as ->; left; reflexivity|right; eapply IH; eauto].
+Qed.
+
+Lemma sync_scan_ok l : sorted_le l = true -> forall n nr, 1 <= nr -> nr + N.of_nat n < 4294967296 ->
+  (exists j, nr <= j < nr + N.of_nat n /\ S_is_sync l j = true /\
+             (forall j', nr <= j' < j -> S_is_sync l j' = false) /\ sync_scan l n nr = Ok (Some (j - 1))) \/
+  ((forall j', nr <= j' < nr + N.of_nat n -> S_is_sync l j' = false) /\ sync_scan l n nr = Ok None).
+Proof.
+  intros Hs. induction n as [|n IH]; intros nr H1 Hb.
+  - right. split; [intros; lia|reflexivity].
+  - cbn [sync_scan]. rewrite (is_sync_correct l nr Hs). cbn [rbind].
+    destruct (S_is_sync l nr) eqn:E.
+    + left. exists nr. split; [lia|]. split; [exact E|]. split; [intros; lia|].
+      rewrite sub32_small by lia. reflexivity.
+    + rewrite u32_small by lia. destruct (IH (nr + 1) ltac:(lia) ltac:(lia)) as [[j [A [B [C D]]]]|[A B]].
+      * left. exists j. split; [lia|]. split; [exact B|]. split; [|exact D].
+        intros j' Hj'. destruct (N.eq_dec j' nr) as [->|]; [exact E|]. apply C. lia.
+      * right. split; [|exact B]. intros j' Hj'. destruct (N.eq_dec j' nr) as [->|]; [exact E|]. apply A. lia.
+Qed.
+
+Lemma starts_succ l : forall acc i t d, nthN (starts l acc) i = Some t -> nthN l i = Some d -> i + 1 < lenN l ->
+  nthN (starts l acc) (i + 1) = Some (t + d).
+Proof.
+  induction l as [|x r IH]; intros acc i t d Ht Hd Hl; [discriminate|].
+  rewrite lenN_cons in Hl. cbn [starts] in *. rewrite nthN_S. cbn [nthN] in Ht, Hd.
+  destruct (i =? 0) eqn:E.
+  - injection Ht as <-. injection Hd as <-. replace i with 0 by lia.
+    destruct r as [|y r']; [rewrite lenN_nil in Hl; lia|]. reflexivity.
+  - replace i with (i - 1 + 1) at 1 by lia. apply IH; [exact Ht|exact Hd|lia].
+Qed.
+
+(* with stss: the end time is the start of the first sync sample at or after the request
+   (lastNr = first sample starting at or after the request, C09_sample_at_time) *)
+Lemma end_time_stss tb l : consistent tb = true ->
+  deltas_positive (t_stts_count tb) (t_stts_delta tb) = true -> t_stss tb = Some l ->
+  forall ts ms lastNr, u64 (ms * ts) / 1000 < sumN (durs tb) ->
+  S_sample_at_time tb (u64 (ms * ts) / 1000) = Some lastNr ->
+  (exists j t, lastNr <= j /\ 2 <= j <= nsamples tb /\ S_is_sync l j = true /\
+               (forall j', lastNr <= j' < j -> S_is_sync l j' = false) /\
+               S_decode_time tb j = Some t /\ find_end_time tb ts ms = Ok t) \/
+  ((forall j', lastNr <= j' -> S_is_sync l j' = false) /\ find_end_time tb ts ms = Err) \/
+  (lastNr = 1 /\ S_is_sync l 1 = true /\ find_end_time tb ts ms = Err).
+Proof.
+  intros H Hp Hl ts ms lastNr Hlt Hsat.
+  destruct (stts_facts tb H) as [L [S [B [T LD]]]].
+  destruct (consistent_parts tb H) as [HN1 [_ [_ [_ [_ [_ [Hss _]]]]]]]. unfold is_u32 in HN1.
+  unfold stss_ok in Hss. rewrite Hl in Hss. apply andb_prop in Hss. destruct Hss as [Hsort Hrange].
+  pose proof (sorted_lt_le _ Hsort) as Hsle.
+  assert (HN : 1 <= nsamples tb).
+  { destruct (N.eq_dec (nsamples tb) 0) as [E|]; [|lia].
+    rewrite <- LD in E. destruct (durs tb) eqn:Ed; [cbn in Hlt; lia|rewrite lenN_cons in E; lia]. }
+  pose proof (sample_at_time_correct tb H Hp HN (u64 (ms * ts) / 1000)) as Hm. rewrite Hsat in Hm.
+  assert (HlastR : 1 <= lastNr <= nsamples tb + 1).
+  { unfold S_sample_at_time in Hsat. destruct (u64 (ms * ts) / 1000 <? sumN (durs tb)) eqn:E; [|lia].
+    assert (Hln : lastNr = 1 + lenN (filter (fun s => s <? u64 (ms * ts) / 1000) (starts (durs tb) 0))) by congruence.
+    pose proof (lenN_filter_le (fun s => s <? u64 (ms * ts) / 1000) (starts (durs tb) 0)) as Hfl.
+    rewrite lenN_starts in Hfl. lia. }
+  unfold find_end_time. rewrite Hm. cbn [rbind]. rewrite Hl.
+  destruct (lenN l =? 0) eqn:El.
+  - right. left. split; [|reflexivity]. intros j' _. destruct l; [reflexivity|rewrite lenN_cons in El; lia].
+  - assert (Hne : l <> []) by (destruct l; [rewrite lenN_nil in El; lia|discriminate]).
+    pose proof (nthN_last l 0 Hne) as Hhi. set (hi := last l 0) in *.
+    rewrite (idx_m1_Some l (lenN l) hi ltac:(lia) Hhi). cbn [rbind].
+    assert (HhiR : 1 <= hi <= nsamples tb).
+    { rewrite forallb_forall in Hrange. pose proof (nthN_In _ _ _ Hhi) as Hin. specialize (Hrange hi Hin). lia. }
+    assert (Hhis : S_is_sync l hi = true) by (apply (existsb_nthN_true _ l (lenN l - 1) hi Hhi); lia).
+    assert (Hbeyond : forall j', hi < j' -> S_is_sync l j' = false).
+    { intros j' Hj'. apply existsb_nthN_false. intros i v Hv.
+      pose proof (nthN_Some_lt _ _ _ Hv).
+      pose proof (sorted_le_nth l Hsle i (lenN l - 1) v hi ltac:(lia) Hv Hhi). lia. }
+    destruct (sync_scan_ok l Hsle (N.to_nat (hi + 1 - lastNr)) lastNr ltac:(lia) ltac:(lia)) as [[j [A [Bj [C D]]]]|[A D]];
+      rewrite D; cbn [rbind].
+    + destruct (j - 1 =? 0) eqn:Ej.
+      * (* the first sync sample at/after the request is sample 1: nothing left *)
+        right. right. assert (j = 1) by lia. subst j. split; [lia|]. split; [exact Bj|reflexivity].
+      * left. destruct (decode_time_correct tb H (j - 1) ltac:(lia)) as [t [d [Ht [Hd Hdt]]]].
+        exists j, (t + d). split; [lia|]. split; [lia|]. split; [exact Bj|]. split; [exact C|].
+        rewrite Hdt. cbn [rbind fst snd]. split.
+        -- unfold S_decode_time, S_dur in *. rewrite Ej in Ht, Hd. destruct (j =? 0) eqn:Ej0; [lia|].
+           replace (j - 1) with (j - 1 - 1 + 1) by lia.
+           apply starts_succ; [exact Ht|exact Hd|]. fold (durs tb). lia.
+        -- assert (t + d <= sumN (durs tb)).
+           { unfold S_decode_time, S_dur in Ht, Hd. rewrite Ej in Ht, Hd.
+             pose proof (start_plus_dur_le (durs tb) 0 (j - 1 - 1) t d Ht Hd). lia. }
+           rewrite u64_small by lia. reflexivity.
+    + right. left. split; [|reflexivity]. intros j' Hlj.
+      destruct (N.le_gt_cases j' hi) as [Le|Gt]; [apply A; lia|apply Hbeyond; exact Gt].
+Qed.
+
+(* without stss every sample is a sync sample: the end time is the end of the sample before the first sample
+   starting at or after the request, i.e. the start of that sample (repaired text) *)
+Lemma end_time_nostss tb : consistent tb = true ->
+  deltas_positive (t_stts_count tb) (t_stts_delta tb) = true -> t_stss tb = None ->
+  forall ts ms lastNr, u64 (ms * ts) / 1000 < sumN (durs tb) ->
+  S_sample_at_time tb (u64 (ms * ts) / 1000) = Some lastNr -> 2 <= lastNr ->
+  exists t d, S_decode_time tb (lastNr - 1) = Some t /\ S_dur tb (lastNr - 1) = Some d /\
+              (lastNr <= nsamples tb -> S_decode_time tb lastNr = Some (t + d)) /\
+              find_end_time tb ts ms = Ok (t + d).
+Proof.
+  intros H Hp Hl ts ms lastNr Hlt Hsat H2.
+  destruct (stts_facts tb H) as [L [S [B [T LD]]]].
+  assert (HlastR : lastNr <= nsamples tb + 1).
+  { unfold S_sample_at_time in Hsat. destruct (u64 (ms * ts) / 1000 <? sumN (durs tb)) eqn:E; [|lia].
+    assert (Hln : lastNr = 1 + lenN (filter (fun s => s <? u64 (ms * ts) / 1000) (starts (durs tb) 0))) by congruence.
+    pose proof (lenN_filter_le (fun s => s <? u64 (ms * ts) / 1000) (starts (durs tb) 0)) as Hfl.
+    rewrite lenN_starts in Hfl. lia. }
+  pose proof (sample_at_time_correct tb H Hp ltac:(lia) (u64 (ms * ts) / 1000)) as Hm. rewrite Hsat in Hm.
+  destruct (decode_time_correct tb H (lastNr - 1) ltac:(lia)) as [t [d [Ht [Hd Hdt]]]].
+  exists t, d. split; [exact Ht|]. split; [exact Hd|].
+  assert (Hle : t + d <= sumN (durs tb)).
+  { unfold S_decode_time, S_dur in Ht, Hd. destruct (lastNr - 1 =? 0) eqn:E; [discriminate|].
+    pose proof (start_plus_dur_le (durs tb) 0 (lastNr - 1 - 1) t d Ht Hd). lia. }
+  split.
+  - intros HlN. unfold S_decode_time, S_dur in *. destruct (lastNr - 1 =? 0) eqn:E; [discriminate|].
+    destruct (lastNr =? 0) eqn:E0; [lia|]. replace (lastNr - 1) with (lastNr - 1 - 1 + 1) by lia.
+    apply starts_succ; [exact Ht|exact Hd|]. fold (durs tb). lia.
+  - unfold find_end_time. rewrite Hm. cbn [rbind]. rewrite Hl. cbn [rbind].
+    destruct (consistent_parts tb H) as [HN1 _]. unfold is_u32 in HN1.
+    rewrite sub32_small by lia. destruct (lastNr - 1 =? 0) eqn:E; [lia|].
+    rewrite Hdt. cbn [rbind fst snd]. rewrite u64_small by lia. reflexivity.
+Qed.
